@@ -581,27 +581,13 @@ class ProcessingItem(ProcessingItemBase):
         if self.detection_item_condition_negation and self.detection_item_conditions:
             detection_item_cond_result = not detection_item_cond_result
 
-        if not self.field_name_conditions:  # no conditions: always matches
-            field_name_cond_result = True
-        elif self.field_name_condition_expression is not None:  # field name condition expression
-            field_name_cond_result = self.field_name_condition_expression.match_detection_item(
-                detection_item
-            )
-        elif self.field_name_condition_linking is not None and isinstance(
-            self.field_name_conditions, list
-        ):
-            field_name_cond_result = self.field_name_condition_linking(
-                [
-                    condition.match_detection_item(detection_item)
-                    for condition in self.field_name_conditions
-                ]
-            )
-        else:  # no field name condition expression or linking defined
-            raise SigmaPipelineConditionError(
-                "No field name condition expression or linking defined for processing item."
-            )
-        if self.field_name_condition_negation and self.field_name_conditions:
-            field_name_cond_result = not field_name_cond_result
+        # Field names are contained in the field of the detection item as well as in field
+        # references in its values. The detection item matches if the field name conditions
+        # (including linking, negation or expression) hold for at least one of these names. The
+        # transformation then checks for each name individually if it has to be processed.
+        field_name_cond_result = self.match_field_name(detection_item.field) or any(
+            self.match_field_in_value(value) for value in detection_item.value
+        )
 
         return detection_item_cond_result and field_name_cond_result
 
